@@ -1276,6 +1276,50 @@ def det_product_cases(rng, thr, fields):
     return cases
 
 
+def det_trivial_cases(rng, fields):
+    """every call form whose arguments are polynomials / scalars only, on ALL tuples of trivial operands (zero, constants,
+    X, degree-1 non-monic, degree 3 monic / non-monic; scalars 0, 1, -1, c): the early-exit branches of every operation,
+    in particular of the forms whose destination is one of the operands"""
+    cases = []
+    flds = [f for f in fields if f[1] < 2 ** 40]
+    nz = lambda p: 1 + rng.below(p - 1)
+    vi = 0
+    for variant, op in sorted(VARIANTS.items()):
+        sig = SIG[op]
+        if variant in NEW_FORMS or variant in RANGE_FORMS or variant.endswith(".Dzero") or variant.startswith("add.rps.Dzero") or set(sig) - set("PS"):
+            continue
+        if op in ("midmul", "val", "pow", "powmod"):
+            continue
+        vi += 1
+        same = ALIAS_FORMS[variant][2] if variant in ALIAS_FORMS else []
+        npoly = sig.count("P")
+        tuples = [[]]
+        for ch in sig:
+            tuples = [t + [k] for t in tuples for k in range(7 if ch == "P" else 4)]
+        if len(tuples) > 400:
+            tuples = [t for i, t in enumerate(tuples) if (i + vi) % 3 == 0 or 0 in t or 1 in t]
+        for ti, t in enumerate(tuples):
+            fk, p = flds[(vi + ti) % len(flds)]
+            c = nz(p) if p == 2 else 2 + rng.below(p - 2)
+            polys = [[], [1], [c], [0, 1], [rng.below(p), c], [rng.below(p), rng.below(p), rng.below(p), 1], [rng.below(p), rng.below(p), rng.below(p), c]]
+            scal = [0, 1, p - 1, c]
+            a = [list(polys[k]) if ch == "P" else scal[k] for ch, k in zip(sig, t)]
+            for i, j in same:
+                a[i] = list(a[j])
+            if op in ("div", "divmod", "divmodin", "mod", "modin", "pdivmod", "pmod") and not a[1]:
+                continue
+            if op == "gcdext" and not a[0] and not a[1]:
+                continue
+            if op in ("invmod", "invmodunit") and (len(a[1]) < 2 or not a[0] or len(pgcd(a[0], a[1], p)) != 1):
+                continue
+            if op == "div_s" and a[1] % p == 0:
+                continue
+            if op in ("div_sp", "mod_sp") and not a[1]:
+                continue
+            cases.append((variant, op, fk, p, a))
+    return cases
+
+
 Q_KINDS = ["constant term 0", "X^k", "c*X", "zero low block", "zero middle block", "all coefficients equal", "dense"]
 R_KINDS = ["0", "full degree deg B - 1", "low degree", "zero low block"]
 B_KINDS = ["monic", "non-monic", "X^k+1", "zero constant term", "X^k"]
@@ -1752,6 +1796,7 @@ def main(tier, replay=None):
         run_stream(chk, "det-products real", bins, "real", drv, det_product_cases(rng, kth, FIELDS_REAL), kth, sth, stats)
         run_stream(chk, "det-division thr2", bins, "t2", drv, det_division_cases(rng, 2, FIELDS_SMALLTHR), 2, 2, stats)
         run_stream(chk, "det-division real", bins, "real", drv, det_division_cases(rng, kth, FIELDS_REAL), kth, sth, stats)
+        run_stream(chk, "det-trivial-operands", bins, "t2", drv, det_trivial_cases(rng, FIELDS_SMALLTHR), 2, 2, stats)
         run_stream(chk, "unnormalised-operands", bins, "t2", drv, unnormalised_cases(rng, 6 if tier == "quick" else 60, FIELDS_SMALLTHR), 2, 2, stats)
         exv = ["mul.rpq", "karamul", "sqr", "divmod", "modin", "gcd.2", "gcd.5", "sub.rpq", "add.rpq", "lcm", "invmod", "pdivmod", "pmod"]
         if tier == "quick":
